@@ -120,6 +120,13 @@ func New(
 			s.logger.Infof("failed to verify incoming vote: %v", err)
 			return
 		}
+		// the voter has verified the certificate the block carries; advanceView above may not have
+		// (the certified block could not be fetched then). A replica that votes for a block knows that
+		// certificate: its next timeout must not report an older one.
+		if _, err := s.state.UpdateHighQC(proposal.Block.QuorumCert()); err != nil {
+			s.logger.Infof("not voting: %v", err)
+			return
+		}
 		err := s.voter.OnValidPropose(&proposal)
 		if err != nil {
 			s.logger.Info(err)
